@@ -17,11 +17,29 @@ def run(t):
     ext = {k: v for k, v in c.items() if k.startswith("ext_")}
     if sum(ext.values()) < 200:
         raise NoVerdict(f"too few external verifications ran: {ext}")
+    # XML-DSig and RSA-PSS CMS against the JDK validator and openssl
+    import os, shutil
+    from checks.C15 import _absorb
+    from checks.C19 import _java_ready
+    _java_ready()
+    d = scratch("c05x")
+    try:
+        o = parse_vh_json(run_vh(vh, ["xml-signed", "2"], env={"VERIF_TMP": d, "VERIF_JAVA_CP": os.path.join(VERIF, "build", "java")}, timeout=1800), "xml-signed")
+        o["failures"] = [f for f in o["failures"] if f["key"].get("kind") == "jdk-rejects-relic-output"]
+        if o["counters"].get("jdk_judged", 0) < 20 and not o["failures"]:
+            raise NoVerdict(f"JDK validator judged only {o['counters'].get('jdk_judged')} documents")
+        _absorb(run, o)
+        ext["ext_jdk_xmldsig"] = o["counters"].get("jdk_judged", 0)
+        o = parse_vh_json(run_vh(vh, ["cms-pss"], env={"VERIF_TMP": d}, timeout=600), "cms-pss")
+        _absorb(run, o)
+        ext["ext_openssl_cms_pss"] = o["counters"].get("pss_signatures", 0)
+    finally:
+        shutil.rmtree(d, ignore_errors=True)
     run.cov["external_verifications"] = ext
     run.cov["rule"] = (f"{len(cases)} cases (types with a reference verifier in the sandbox x keys x digests x modes); "
                        "jarsigner is skipped for MD5/SHA-1 jars (disabled by JDK policy). non-trivial = signing succeeded")
     run.assumptions += ["no independent verifier exists here for rpm, appx, mach-o/dmg/pkg, cab, cat, msi, apk v2: not covered by this check",
-                        "XML-DSig (ClickOnce, VSIX) is checked against the JDK in C19"]
+                        "XML-DSig canonical-form laws are C19's; here only: the JDK validator accepts what relic wrote (ClickOnce SHA-1, VSIX), and openssl accepts RSA-PSS CMS from relic's builder"]
     return run.finish()
 
 
